@@ -1,5 +1,6 @@
 import Mouette.Model.Proto
 import Mouette.Model.Dijkstra
+import Mouette.Model.PathMesh
 /-
 Protocol front-end for C09.
   `sp  <n> <m> (u v w)^m <start> <k> t^k`   reply: `ok (dist pathweight valid)^k` — per target the final label
@@ -7,6 +8,10 @@ Protocol front-end for C09.
         ends at t and follows adjacencies — or `err:Key` if some target is not connected to start (the code reads
         `path[None]`), `err:Loop` if back-tracking ran out of fuel (never, by `path_valid`).
   `set <n> <m> (u v w)^m <start> <k> t^k`   reply: `ok <ind> <dist> <pathweight> <valid> <ind ∈ targets>` / `err:Key`.
+  `border <n> <m> (u v w isborder)^m <start>`  reply as for `set` (the target set is `boundaryVertices` of the flagged
+        edges), or `err:NoBorder` when no edge is flagged (the code raises "Mesh has no border").
+  every request may end with `pm <k> (<len> v^len)^k` (the paths returned by the implementation, in dict order); the
+  reply then ends with ` | V:<vertex ids> E:<a-b,...>` = `buildPath` of these paths.
 Vertex ids must be `< n`, weights `≥ 0` (else `err:Value`: outside the statement's quantifier).
 -/
 namespace Mouette.DriveC09
@@ -61,10 +66,52 @@ def setReply (r : Req) : String :=
   | (.keyError, _) => "err:Key"
   | (.outOfFuel, _) => "err:Loop"
 
+structure BReq where
+  n : Nat
+  edges : List ((Nat × Nat × Rat) × Bool)
+  start : Nat
+
+def bedgeP : P ((Nat × Nat × Rat) × Bool) := do
+  let e ← edgeP; let b ← bool; pure (e, b)
+
+def breqP : P BReq := do
+  let n ← nat
+  let edges ← listOf bedgeP
+  let start ← nat
+  pure { n, edges, start }
+
+def BReq.req (r : BReq) : Req :=
+  { n := r.n, edges := r.edges.map (·.1), start := r.start,
+    targets := boundaryVertices (r.edges.map (fun e => ((e.1.1, e.1.2.1), e.2))) }
+
+def borderReply (r : BReq) : String :=
+  let adj := adjOf (r.edges.map (·.1))
+  match toBorder PQ.pop adj r.n r.start (r.edges.map (fun e => ((e.1.1, e.1.2.1), e.2))) with
+  | none => "err:NoBorder"
+  | some _ => setReply r.req        -- `toBorder = some (vertexSet … boundaryVertices)`; same report as `set`
+
+/-- optional trailing `pm` section -/
+def pmOptP : P (Option (List (List Nat))) := fun ts =>
+  match ts with
+  | "pm" :: rest => (listOf (listOf nat)).run rest |>.map (fun (x, r) => (some x, r))
+  | _ => some (none, ts)
+
+def pmReply : Option (List (List Nat)) → String
+  | none => ""
+  | some ps =>
+    let (vs, es) := buildPath ps
+    " | V:" ++ " ".intercalate (vs.map toString) ++ " E:" ++ ",".intercalate (es.map (fun e => s!"{e.1}-{e.2}"))
+
 def handle (ts : List String) : Option String :=
   match ts with
-  | "sp" :: rest => (runP reqP rest).map (fun r => if r.wf then spReply r else "err:Value")
-  | "set" :: rest => (runP reqP rest).map (fun r => if r.wf then setReply r else "err:Value")
+  | "sp" :: rest => (runP (do let r ← reqP; let pm ← pmOptP; pure (r, pm)) rest).map
+      (fun (r, pm) => (if r.wf then spReply r else "err:Value") ++ pmReply pm)
+  | "set" :: rest => (runP (do let r ← reqP; let pm ← pmOptP; pure (r, pm)) rest).map
+      (fun (r, pm) => (if r.wf then setReply r else "err:Value") ++ pmReply pm)
+  | "border" :: rest => (runP (do let r ← breqP; let pm ← pmOptP; pure (r, pm)) rest).map
+      (fun (r, pm) =>
+        (if (r.edges.all (fun e => e.1.1 < r.n && e.1.2.1 < r.n && e.1.1 != e.1.2.1 && decide (0 ≤ e.1.2.2)) && decide (r.start < r.n))
+          then borderReply r else "err:Value") ++ pmReply pm)
   | _ => none
 
 end Mouette.DriveC09
